@@ -367,7 +367,7 @@ func (m *tableMon) memberBefore() *memberSnap {
 // topupInvoke registers a buy-in / re-buy / add-on as in flight (its effect may become visible in
 // snapshots published before the call returns).
 func (m *tableMon) topupInvoke(id string, amt int64) {
-	m.pendingTopup = &topup{id: id, amt: amt, invokeSeq: m.c.Seq()}
+	m.pendingTopup = &topup{id: id, amt: amt, invokeSeq: m.c.Seq(), atMs: m.c.NowMs()}
 	m.topups = append(m.topups, m.pendingTopup)
 }
 
